@@ -1190,6 +1190,11 @@ def respOKBack {V : Type} : RRef2 V → Bool
 
 /-- an inline query / header / path parameter inside the fragment -/
 def paramSimple {V : Type} : PRef2 V → Bool
+  | .ref k _ => k.isV2            -- a reference to a shared parameter (of the fragment: `sharedSimple`)
+  | .val p => p.loc != "body" && p.loc != "formData" && itemsOK3 p.items
+
+/-- a shared parameter of the fragment: an inline query / header / path parameter -/
+def sharedSimple {V : Type} : PRef2 V → Bool
   | .ref _ _ => false
   | .val p => p.loc != "body" && p.loc != "formData" && itemsOK3 p.items
 
@@ -1230,18 +1235,29 @@ def bodiesOK {V : Type} (d : Doc2 V) : Bool :=
 
 def locOK (l : Loc2) : Bool := l.host != "" || (l.basePath == "" && l.schemes.isEmpty)
 
-/-- documents without shared parameters whose operations take inline query / header / path parameters;
-    shared responses, definitions (distinct names), security schemes and the location are unrestricted
-    inside the fragments of the component theorems -/
+/-- documents whose shared parameters are query / header / path parameters and whose operations and path items
+    take such parameters inline or by reference; shared responses, definitions (distinct names), security
+    schemes and the location are unrestricted inside the fragments of the component theorems.
+    (References are taken to resolve: the loader's failure on a dangling parameter / response reference is
+    not modelled.) -/
 def docSimple {V : Type} (d : Doc2 V) : Bool :=
-  d.params.isEmpty && d.paths.all pathSimple && d.responses.all (fun kr => respOK3 kr.2) &&
+  d.params.all (fun kp => sharedSimple kp.2) && d.paths.all pathSimple && d.responses.all (fun kr => respOK3 kr.2) &&
   nodupKeys d.defs && d.defs.all (fun ks => !addlImpure ks.2 && v2Refs ks.2) &&
   d.secs.all (fun ks => secInFragment ks.2) && locOK d.loc
 
 /-- fragment of the round-trip theorems (outside every exclusion), component by component -/
 def paramSimpleBack {V : Type} : PRef2 V → Bool
+  | .ref k _ => k.isV2
+  | .val p => p.loc != "body" && p.loc != "formData" && itemsOKBack p.items && noBinary2 (paramSchema2 p)
+
+def sharedSimpleBack {V : Type} : PRef2 V → Bool
   | .ref _ _ => false
   | .val p => p.loc != "body" && p.loc != "formData" && itemsOKBack p.items && noBinary2 (paramSchema2 p)
+
+/-- the v2 parameter that comes back for a parameter of the simple fragment -/
+def backPS {V : Type} : PRef2 V → PRef2 V
+  | .ref k n => .ref (fromV3RK (toV3RK k)) n
+  | .val p => .val (fromV3Param (toV3Param p))
 
 def headerSimpleBack {V : Type} (h : String × Param2 V) : Bool :=
   itemsOKBack h.2.items && noBinary2 (paramSchema2 h.2)
@@ -1261,7 +1277,7 @@ def defSimpleBack {V : Type} (s : Sch V) : Bool :=
   (match s with | .ref _ _ => true | .node h _ => h.fmt != some "binary")
 
 def docSimpleBack {V : Type} (d : Doc2 V) : Bool :=
-  docSimple d && d.params.isEmpty && d.paths.all pathSimpleBack && d.responses.all (fun kr => respSimpleBack d.produces kr.2) &&
+  docSimple d && (d.params.all (fun kp => sharedSimpleBack kp.2) && nodupKeys d.params) && d.paths.all pathSimpleBack && d.responses.all (fun kr => respSimpleBack d.produces kr.2) &&
   nodupKeys d.defs && d.defs.all (fun ks => defSimpleBack ks.2) &&
   d.secs.all (fun ks => secInFragment ks.2) &&
   (d.loc.host != "" && d.loc.schemes.all (fun x => x == "http" || x == "https"))
